@@ -81,8 +81,10 @@ func (s String) Inspect() string {
 			break
 		}
 		if char == utf8.RuneError && size == 1 {
-			// invalid UTF-8 character
-			char = rune(leftStr[0])
+			// invalid UTF-8 byte, only a hex escape denotes a raw byte
+			fmt.Fprintf(&buffer, `\x%02x`, leftStr[0])
+			leftStr = leftStr[size:]
+			continue
 		}
 		switch char {
 		case '\\':
@@ -110,9 +112,10 @@ func (s String) Inspect() string {
 		default:
 			if unicode.IsGraphic(char) {
 				buffer.WriteRune(char)
-			} else if char>>8 == 0 {
+			} else if char < utf8.RuneSelf {
 				fmt.Fprintf(&buffer, `\x%02x`, char)
 			} else if char>>16 == 0 {
+				// `\x80` would denote the byte 0x80, not the character U+0080
 				fmt.Fprintf(&buffer, `\u%04x`, char)
 			} else {
 				fmt.Fprintf(&buffer, `\U%08X`, char)
